@@ -72,6 +72,12 @@ func corpus() []scenario {
 			{Op: OpNew, A: 1}, {Op: OpSetOpt, A: 1, Flag: true}, {Op: OpApp, A: 1, Sid: 1, T: 1010, V: fh(2)},
 			{Op: OpApp, A: 1, Sid: 1, T: 900, V: stale()}, {Op: OpApp, A: 1, Sid: 2, T: 900, V: stale()}, {Op: OpCommit, A: 1},
 		}},
+		// a custom-buckets float histogram opens the batch, a float of the same series follows
+		{"fnhcb-then-float-same-txn", Cfg{1000, 0, 32}, []Op{
+			{Op: OpNew, A: 0}, {Op: OpApp, A: 0, Sid: 1, T: 1000, V: fh(-1)}, {Op: OpApp, A: 0, Sid: 1, T: 2000, V: fl(2)}, {Op: OpCommit, A: 0},
+			{Op: OpNew, A: 1, V2: true}, {Op: OpApp, A: 1, Sid: 2, T: 2100, V: hi(-1)}, {Op: OpApp, A: 1, Sid: 2, T: 2200, V: fl(2)},
+			{Op: OpApp, A: 1, Sid: 2, T: 2300, V: fh(-2)}, {Op: OpApp, A: 1, Sid: 2, T: 2400, V: stale()}, {Op: OpApp, A: 1, Sid: 2, T: 2500, V: fh(3)}, {Op: OpCommit, A: 1},
+		}},
 		{"clash-inorder-ooo", Cfg{1000, 5000, 32}, []Op{
 			{Op: OpNew, A: 0}, {Op: OpApp, A: 0, Sid: 1, T: 100, V: fl(1)}, {Op: OpApp, A: 0, Sid: 2, T: 2000, V: fl(1)}, {Op: OpCommit, A: 0},
 			{Op: OpNew, A: 1}, {Op: OpApp, A: 1, Sid: 1, T: 100, V: fl(2)}, {Op: OpApp, A: 1, Sid: 1, T: 100, V: fl(3)}, {Op: OpApp, A: 1, Sid: 1, T: 50, V: fl(3)}, {Op: OpCommit, A: 1},
